@@ -236,6 +236,9 @@ func (r *run) finalDrain() {
 			}
 		}
 	}
+	if r.cfg.Observe {
+		r.res.Obs = r.observe()
+	}
 	r.mon.atQuiescence(r)
 }
 
